@@ -107,9 +107,11 @@ def op_table():
                           ("rename rc newrc 1", "gd_rename", 0), ("rename sraw newsraw 9", "gd_rename", 1)):
         add(line, name, "dedit %d" % g)
     # cross-fragment effects
-    add("rename sraw newsraw 2", "gd_rename", None)          # GD_REN_UPDB: rewrites the users of sraw in fragment 0 too
+    add("rename sraw newsraw 2", "gd_rename", "renupdb 1 0,1")   # GD_REN_UPDB: rewrites the users of sraw (xph in fragment 0, sph in 1)
+    add("rename raw newraw 2", "gd_rename", "renupdb 0 0")
+    add("rename r16 newr16 2", "gd_rename", "renupdb 0 0")
     add("rename sraw newsraw 3", "gd_rename", None)
-    add("rename sconst newn 2", "gd_rename", None)
+    add("rename sconst newn 2", "gd_rename", "renupdb 1 -")
     add("delete sconst 4", "gd_delete", None)                 # GD_DEL_DEREF
     add("delete carray 12", "gd_delete", None)
     for line, m in (("move const 1 0", "move 0 1 0"), ("move sconst 0 0", "move 1 0 0"), ("move rc 1 1", "move 0 1 1"), ("move sraw 0 1", "move 1 0 1"),
